@@ -284,7 +284,7 @@ impl ChessBoard {
         if (king_mask & self.get_color_mask(White)).count_ones() != 1 {
             return Some(Error::InvalidBoardMultipleOneColorKings);
         }
-        if (king_mask & self.get_color_mask(White)).count_ones() != 1 {
+        if (king_mask & self.get_color_mask(Black)).count_ones() != 1 {
             return Some(Error::InvalidBoardMultipleOneColorKings);
         }
 
